@@ -51,8 +51,17 @@ def r1_pairing(ctx):
                     continue
                 n += 1
                 tail = p[k + 1:]
-                popped = any(x[0] == "call" and name_is(x[2], "NamespaceResolver::pop") for x in tail) or \
-                    any(x[0] == "store" and ends_with_fields(x[2], "pending_pop") and x[3] == ("c", "bool", True) for x in tail)
+                head = p[:k]
+                direct = any(x[0] == "call" and name_is(x[2], "NamespaceResolver::pop") for x in tail)
+                scheduled = any(x[0] == "store" and ends_with_fields(x[2], "pending_pop") and x[3] == ("c", "bool", True) for x in tail)
+                flushed = any(x[0] == "call" and name_is(x[2], "NsReader::pop") for x in head)
+                # the deferred pop is one boolean: scheduling a second pop while one is pending loses a pop,
+                # so scheduling is only sound after the pending one was flushed
+                popped = direct or (scheduled and flushed)
+                if scheduled and not flushed and not direct:
+                    ctx.ob("R1", "%s:scheduled-pop-may-collapse" % name, False,
+                           "%s schedules the pop of the skipped element with the single boolean `pending_pop` without first executing a pop that may already be pending (after an Empty or End event): two scope ends collapse into one and the skipped element's declarations stay in scope" % name,
+                           loc=b.loc(c[4]), config=cfg)
                 ctx.ob("R1", "%s:pop-after-skip" % name, popped,
                        "%s lets the inner reader consume the End tag of the element whose scope was pushed by its Start event, but its success path neither pops the namespace scope nor schedules the pop (declarations of the skipped element stay in scope)" % name,
                        loc=b.loc(c[4]), config=cfg)
